@@ -242,7 +242,7 @@ def py_align(t):
 
 
 def has_underaligned_fullwidth_unnamed_bf(t):
-    """gcc turns an unnamed bit-field as wide as its type into an ordinary member of that type without raising the
+    """gcc turns an unnamed bit-field as wide as an integer type (16, 32, 64 bits) into an ordinary member of that type without raising the
     struct's alignment; when the struct then sits at an offset that is not a multiple of the type's size, gcc's
     classify_argument sees a misaligned scalar and answers MEMORY (`struct { int a : 1; struct { short : 16; } s; }`;
     clang: INTEGER, as c2m).  An artefact of gcc's representation, like has_union_unnamed_bf: not compared."""
@@ -250,9 +250,9 @@ def has_underaligned_fullwidth_unnamed_bf(t):
         if x[0] in 'su':
             a = py_align(x)
             for m in x[1]:
-                if m[0] == 'g' and m[1] > 0 and m[2][0] == 'b' and m[1] == 8 * G.KSIZE[m[2][1]] and G.KSIZE[m[2][1]] > a:
-                    return True
-                if m[0] == 'g' and m[1] > 0 and m[2][0] == 'e' and m[1] == 8 * G.ENUM_SIZE[m[2][1]] and G.ENUM_SIZE[m[2][1]] > a:
+                # round 3 (seed 12: `struct { int a : 17; struct { long long : 16; } s; }` gcc MEMORY, `long long : 15`
+                # INTEGER): what matters is the width being that of an integer mode (16/32/64), whatever the declared type
+                if m[0] == 'g' and m[1] in (16, 32, 64) and m[1] // 8 > a:
                     return True
     return False
 
